@@ -1053,6 +1053,28 @@ def _one_content_sig(rng):
 
 _fam('content_sig', _one_content_sig)
 
+
+def _one_content_sig_dual(rng):
+    """bytes that are a well-formed signature under BOTH readings: (hash, sign, u16 L, L bytes) where the first
+    two bytes, read as a legacy u16 length, cover exactly the rest (L + 2) - with or without trailing bytes. Which value
+    comes out must depend on the caller's flag alone."""
+    w = Writer()
+    kx, new = rng.choice(('dh', 'ecdh')), rng.random() < .5
+    c = (gen_dh if kx == 'dh' else gen_ecdh)(rng, w, rng.choice((4, 40)))
+    L = rng.choice((0, 1, 2, 3, 253, 254, 255, 256, 510, 1023, 1025, 4094, rng.randrange(0, 3000)))
+    start = w.pos()
+    w.u(2, L + 2)
+    w.u(2, L)
+    body = w.raw(rng.randbytes(L))
+    if new:
+        v = ctor('P', c, ctor('DSig', opt(ctor('P', (L + 2) >> 8, (L + 2) & 255)), body))
+    else:
+        v = ctor('P', c, ctor('DSig', 'none', span(start + 2, L + 2)))
+    return Case('', ['content_sig', kx, '1' if new else '0'], w.b, w.fields, v, _trail(rng, w, .3))
+
+
+_fam('content_sig_dual', _one_content_sig_dual)
+
 # --- DTLS
 _simple('dtls_record', ['dtls_record'], lambda rng, w, big: gen_dtls_record(rng, w, None, big))
 _simple('dtls_hs', ['dtls_hs'], lambda rng, w, big: gen_dtls_handshake_msg(rng, w, None, big))
